@@ -47,7 +47,7 @@ func verif_isPortAvailable(pm *Manager, port int) {
 // changes neither table.
 //
 //verif:contract (*~/server/ports.Manager).Acquire
-//verif:props C09 C10 C13
+//verif:props C09 C10
 func verif_Acquire(pm *Manager, name string, port int, q int) {
 	free0 := verif.Snap(pm.freePorts)
 	used0 := verif.Snap(pm.usedPorts)
